@@ -149,11 +149,21 @@ func (s *Scratch) InitModule() error {
 			return err
 		}
 	}
-	out, err := s.goCmd(5*time.Minute, "build", "-o", filepath.Join(s.Dir, "gendrv.bin"), "./gendrv")
+	out, err := s.goCmd(5*time.Minute, append(append([]string{"build"}, coverFlags()...), "-o", filepath.Join(s.Dir, "gendrv.bin"), "./gendrv")...)
 	if err != nil {
 		return fmt.Errorf("building generator driver against %s failed: %v\n%s", repo, err, out)
 	}
 	return nil
+}
+
+// coverFlags: development aid. With VERIF_COVER=1 the generator driver and the CLI are built with statement
+// coverage of the repository's packages (run the check with GOCOVERDIR=<dir>; tools/cover.sh reads the result):
+// blocks of the generator no enumerated case ever reaches are where a change cannot be seen.
+func coverFlags() []string {
+	if os.Getenv("VERIF_COVER") == "" {
+		return nil
+	}
+	return []string{"-cover", "-coverpkg=github.com/atombender/go-jsonschema/..."}
 }
 
 // BuildCLI builds the repository's main package.
@@ -161,7 +171,7 @@ func (s *Scratch) BuildCLI() (string, error) {
 	bin := filepath.Join(s.Dir, "gjs.bin")
 	ctx, cancel := context.WithTimeout(context.Background(), 5*time.Minute)
 	defer cancel()
-	cmd := exec.CommandContext(ctx, "go", "build", "-o", bin, ".")
+	cmd := exec.CommandContext(ctx, "go", append(append([]string{"build"}, coverFlags()...), "-o", bin, ".")...)
 	cmd.Dir = Repo()
 	env := os.Environ()
 	cmd.Env = append(env, "GOPROXY=off", "GOSUMDB=off", "GOTOOLCHAIN=local")
